@@ -174,7 +174,7 @@ fn run<B: SimField, H: ElementHasher<BaseField = B> + Send + Sync + 'static>(
         return;
     }
 
-    let kind = ch.weighted("fault.kind", &[5, if case.shape.aux.is_some() { 4 } else { 0 }, 3, 1, 3, 3]);
+    let kind = ch.weighted("fault.kind", &[5, if case.shape.aux.is_some() { 4 } else { 0 }, 3, 1, 3, 3, 2]);
     let ctxt = |case: &Case<B>| format!("{:?} {:?} shape {}", cfg, case.options, case.shape.describe());
     match kind {
         0 => {
@@ -498,6 +498,49 @@ fn run<B: SimField, H: ElementHasher<BaseField = B> + Send + Sync + 'static>(
                 }
             }
         },
+        6 => {
+            // F7: the STATEMENT names the cells of one of its assertions a second time with other
+            // values (both parties are given this statement). The trace satisfies the first-listed
+            // assertion and violates the second: it does not satisfy the statement. The library
+            // refuses such a statement (overlap panic in Air / boundary-constraint construction -
+            // a refusal, not an acceptance); what must never happen is that one of the two
+            // assertions is silently dropped and the proof accepted.
+            let mut shape = case.shape.clone();
+            let k = ch.index("F7.assertion", shape.assertions.len());
+            let dup = shape.assertions[k].clone();
+            let first_listed_true = ch.chance("F7.true_first?", 2, 3);
+            let mut inputs = case.inputs.clone();
+            let mut wrong = inputs.values[k].clone();
+            let i = ch.index("F7.value", wrong.len());
+            wrong[i] += felt::<B>(1 + ch.pick("F7.delta", 1 << 30));
+            if first_listed_true {
+                shape.assertions.push(dup);
+                inputs.values.push(wrong);
+            } else {
+                shape.assertions.insert(0, dup);
+                inputs.values.insert(0, wrong);
+            }
+            inputs.shape = shape.clone();
+            let c2 = Case { blowup: case.blowup, shape, rows: case.rows.clone(), inputs, options: case.options.clone() };
+            if main_violations(&c2.inputs, &c2.rows).is_empty() {
+                panic!("harness: the conflicting statement is satisfied");
+            }
+            ctx.fault("F7_statement_repeats_an_assertion_with_other_values");
+            let res = prove_and_verify::<B, H>(&c2, &c2.rows, None);
+            let verdict = match &res {
+                None => "prover-refused".to_string(),
+                Some((a, b)) => format!("{} / {}", a.short(), b.short()),
+            };
+            ctx.event_with("F7", k as u64 ^ simcore::rng::fnv1a(verdict.as_bytes()), || format!("assertion {k} repeated with another value (true one listed first: {first_listed_true}): {verdict}"));
+            if let Some((a, b)) = &res {
+                if a.accepted() || b.accepted() {
+                    ctx.violation(
+                        format!("C02/F7/conflicting-assertion-dropped {}", if first_listed_true { "later-one" } else { "earlier-one" }),
+                        format!("the statement asserts the same cells twice with different values; the trace violates one of the two, yet the proof was accepted ({verdict}): an assertion was silently dropped; {}", ctxt(&c2)),
+                    );
+                }
+            }
+        },
         _ => {
             // F4: acceptance policy does not contain the proof's parameters
             let (out, _) = prove::<B, H, DefaultRandomCoin<H>>(&case, &case.rows, None);
@@ -558,7 +601,7 @@ pub fn spec() -> CheckSpec {
         id: "C02",
         level: "exploration",
         build: "serial",
-        rule: "one run = one generated case (as C01) whose fault-free baseline is first confirmed, then one injected fault: F1 a cell (column, step) of the prover's stored main trace changed before commitment (aimed at step 0, the last enforced transition, both sides of the exemption boundary, n-1, every asserted step and its neighbours, or uniform); F2 the same for an auxiliary-trace cell inside the prover node (incl. the Lagrange column); F5 two cells corrupted by cancelling deltas so that two constraints over the same divisor are violated by opposite amounts (main/main, main/aux, same-step assertions); F6 a transition and a boundary constraint violated at step 0 with residues that cancel when they share a coefficient; F3 one public input of the verifier perturbed (asserted value, exemption count, rule parameter, assertion step / column, periodic value); F4 an acceptance policy that excludes the proof's parameters. The enum-cells arm corrupts EVERY cell of small traces (n<=32, w<=6) in turn. Non-trivial = a fault fired; distinct = distinct event-log digests.".into(),
+        rule: "one run = one generated case (as C01) whose fault-free baseline is first confirmed, then one injected fault: F1 a cell (column, step) of the prover's stored main trace changed before commitment (aimed at step 0, the last enforced transition, both sides of the exemption boundary, n-1, every asserted step and its neighbours, or uniform); F2 the same for an auxiliary-trace cell inside the prover node (incl. the Lagrange column); F5 two cells corrupted by cancelling deltas so that two constraints over the same divisor are violated by opposite amounts (main/main, main/aux, same-step assertions); F6 a transition and a boundary constraint violated at step 0 with residues that cancel when they share a coefficient; F3 one public input of the verifier perturbed (asserted value, exemption count, rule parameter, assertion step / column, periodic value); F4 an acceptance policy that excludes the proof's parameters; F7 a statement that names the cells of one assertion twice with different values (the library may refuse it; it must not drop one of the two and accept). The enum-cells arm corrupts EVERY cell of small traces (n<=32, w<=6) in turn. Non-trivial = a fault fired; distinct = distinct event-log digests.".into(),
         interleaving_measure: "distinct (case, fault kind, fault position, verdict) histories".into(),
         real: vec!["winter-prover (release profile: its debug-only trace validation is off, as shipped)", "winter-verifier, winter-air, winter-fri, winter-crypto, winter-math"],
         stub: vec!["the fault points are the harness' Prover impl (trace handed to prove(); build_aux_trace)"],
